@@ -17,6 +17,9 @@ TRUSTED = ["hand model lean/AwsVerif/Model/Threads.lean (tied by this correspond
 ASSUMPTIONS = ["sequentially consistent interleavings that switch only at pthread lock/unlock/cond/create/join/detach/nanosleep calls",
                "pthread_cond_signal wakes the longest-waiting thread; spurious wake-ups are included",
                "one thread per slot; join_all_managed is called from the main thread only (as aws_common_library_clean_up does)",
+               "c20_no_deadlock: WFProgress programs (each slot launched from one place; a manual thread is joined at most once and "
+               "only by the thread that launches it - a pthread_join cycle among user threads deadlocks in plain pthreads too); "
+               "deadlock freedom = some thread can always step; termination of the busy join-all loop additionally needs a fair scheduler",
                "thread-local storage (tl_wrapper) and real stacks are not modelled; thread functions terminate"]
 RULE = ("programs of 1..6 thread slots (manual/managed, nested launches, 0..4 at-exit registrations, joins, count reads, "
         "join-all racing completions, timeouts with virtual time, injected pthread_create failures, launches with a "
@@ -24,14 +27,7 @@ RULE = ("programs of 1..6 thread slots (manual/managed, nested launches, 0..4 at
         "named threads, pthread_create as two schedule points (create / return to the creator)) x schedules "
         "(choice lists from the PRNG, spurious wake-ups, and every schedule of small programs up to a preemption bound, "
         "enumerated on the model); non-trivial = at least two threads of which one is managed")
-NOT_PROVED = ["c20_no_deadlock: kept as `def c20_no_deadlock_statement : Prop` (full strength, for WFProgress programs). "
-              "Proved parts: c20_no_deadlock_partial (mutual exclusion; the lock holder always has an enabled step, so "
-              "`lock` never blocks for ever), c20_no_lost_wakeup (only main waits; an un-notified waiter implies "
-              "count >= 2 or a notify is the lock holder's next instruction; every count-- is followed by the notify) "
-              "and c20_managed_owner (no double join, no self-join). Missing: progress of the pthread_join chains "
-              "(acyclicity via the hand-over order / launch tree). Evidence instead: every enumerated / random "
-              "schedule of the correspondence run ends with all threads finished (the scheduler reports a deadlock "
-              "or livelock as a violation)."]
+NOT_PROVED = []
 
 ACT = re.compile(r"^([LPQRJDACWTYS])(\d*)(n?)$")   # trailing n on a launch: the thread gets a name
 LAUNCH = "LPQR"   # L: cpu_id -1; P: cpu 0; Q: cpu 1000, first pthread_create fails EINVAL, retried unpinned; R: retry fails too
